@@ -84,11 +84,11 @@ static void eq_pca(PCAMODEL *a, PCAMODEL *b){
 /* ------------------------------------------------------------------ CPCA */
 static void fill_cpca(CPCAMODEL *a, CPCAMODEL *b, int s){
   if(s == 0) return;
-  size_t nb = s == 1 ? 1 : 2, n = 2, k = 1;                      /* s1: one block, s2: two blocks (2 and 3 rows of loadings) */
+  size_t nb = s == 1 ? 1 : 2, n = 2, k = s == 3 ? 2 : 1;         /* s1: one block, s2: two blocks, s3: two blocks and two components (tensor blocks with 2 columns) */
   fillv(a->scaling_factor, b->scaling_factor, nb); fillv(a->total_expvar, b->total_expvar, k);
-  fillt(a->block_scores, b->block_scores, nb, n, k); fillt(a->block_loadings, b->block_loadings, nb, s, k);
+  fillt(a->block_scores, b->block_scores, nb, n, k); fillt(a->block_loadings, b->block_loadings, nb, s == 3 ? 1 : s, k);
   fillm(a->super_scores, b->super_scores, n, k); fillm(a->super_weights, b->super_weights, nb, k);
-  filll(a->block_expvar, b->block_expvar, nb, k); filll(a->colaverage, b->colaverage, nb, s); filll(a->colscaling, b->colscaling, nb, s);
+  filll(a->block_expvar, b->block_expvar, nb, k); filll(a->colaverage, b->colaverage, nb, s == 3 ? 1 : s); filll(a->colscaling, b->colscaling, nb, s == 3 ? 1 : s);
 }
 static void eq_cpca(CPCAMODEL *a, CPCAMODEL *b){
   eqv(a->scaling_factor, b->scaling_factor, ""); eqv(a->total_expvar, b->total_expvar, "");
